@@ -34,7 +34,17 @@ def encCell (t : Text) : String := ".".intercalate (t.map fun c => toString c.to
 def encRow (cells : List ((Int × Int) × Text)) (y xoff : Int) (width : Nat) : String :=
   "r:" ++ ",".intercalate ((List.range width).map fun (x : Nat) => encCell (cellAt cells (y, xoff + (x : Int))))
 
-def showRendered (r : Rendered) (ypos : Int) (height : Nat) : String :=
+/-- position maps of the cursor line: `source_to_display(0..len)`, `display_to_source(0..displaylen+1)` -/
+def showMaps (procs : List Proc) (text : Text) (cy : Nat) : String :=
+  let ls := splitOn '\n' text
+  let line := ls.getD cy []
+  let tr := merged cy ls.length procs line
+  let s2d := (List.range (line.length + 1)).map fun i =>
+    match tr.s2d i with | some d => toString d | none => "E"
+  let d2s := (List.range (tr.frags.length + 2)).map fun (j : Nat) => toString (tr.d2s (j : Int))
+  s!"pm {s2d.length} " ++ " ".intercalate s2d ++ s!" dm {d2s.length} " ++ " ".intercalate d2s
+
+def showRendered (r : Rendered) (ypos : Int) (height : Nat) (maps : String) : String :=
   let st := r.st
   let (cyS, cxS) := cursorScreen st r.cy r.cx
   let vl := st.vl.reverse
@@ -42,7 +52,7 @@ def showRendered (r : Rendered) (ypos : Int) (height : Nat) : String :=
   let vlS := vl.foldl (fun acc (y, row, col) => acc ++ s!" {y} {row} {col}") s!"vl {vl.length}"
   let rcS := rc.foldl (fun acc ((row, col), (y, x)) => acc ++ s!" {row} {col} {y} {x}") s!"rc {rc.length}"
   let rows := (List.range height).map fun (y : Nat) => encRow st.cells (ypos + (y : Int)) r.xoff r.width.toNat
-  s!"{r.scroll.vs} {r.scroll.hs} {r.scroll.vs2} {r.cy} {r.cx} {r.width} {r.xoff} {cyS} {cxS} {vlS} {rcS} " ++
+  s!"{r.scroll.vs} {r.scroll.hs} {r.scroll.vs2} {r.cy} {r.cx} {r.width} {r.xoff} {cyS} {cxS} {vlS} {rcS} {maps} " ++
     " ".intercalate rows
 
 def stepLine (s : Scroll) (toks : List String) : Scroll × String :=
@@ -79,7 +89,7 @@ def stepLine (s : Scroll) (toks : List String) : Scroll × String :=
                            right := right, beyond := beyond, margin := margin,
                            pfx := if hasP then some (pA, pB, pC) else none, procs := procs }
         match render genW cfg w h wrap text cur s with
-        | some r => pure (r.scroll, showRendered r ypos h)
+        | some r => pure (r.scroll, showRendered r ypos h (showMaps procs text r.cy))
         | none => pure (s, "err:KeyError")
       | _ => none
     r.getD (s, "bad-op")
